@@ -78,6 +78,7 @@ fn main() {
             "keyid" => keyspki::run_keyid(sc),
             "spki" => keyspki::run_spki(sc),
             "keytable" => keyspki::run_keytable(sc),
+            "keyjson" => keyspki::run_keyjson(sc),
             _ => json!({"outcome": "unsupported-kind"}),
         });
         out.push(r);
